@@ -1591,6 +1591,10 @@ private:
       // Since the error has already been handled in _populate_formatted_log_message,
       // there is no additional action required here.
     }
+    QUILL_CATCH_ALL()
+    {
+      // Same for exceptions not derived from std::exception thrown by a user defined formatter
+    }
 #endif
   }
 
@@ -1620,6 +1624,19 @@ private:
         fmtquill::format(R"([Could not format log statement. message: "{}", location: "{}", error: "{}"])",
                          transit_event->macro_metadata->message_format(),
                          transit_event->macro_metadata->short_source_location(), e.what());
+
+      transit_event->formatted_msg->append(error);
+      _options.error_notifier(error);
+    }
+    QUILL_CATCH_ALL()
+    {
+      // A user defined formatter can throw anything. If the exception escaped from here the
+      // statement would never be consumed from the queue and would be decoded again on every poll
+      transit_event->formatted_msg->clear();
+      std::string const error = fmtquill::format(
+        R"([Could not format log statement. message: "{}", location: "{}", error: "{}"])",
+        transit_event->macro_metadata->message_format(),
+        transit_event->macro_metadata->short_source_location(), "unknown exception");
 
       transit_event->formatted_msg->append(error);
       _options.error_notifier(error);
